@@ -4,6 +4,7 @@ REGISTRY = {
     "C04": "c04_store",
     "C10": "c10_batch",
     "C11": "c11_crash",
+    "C12": "c12_resume",
     "C13": "c13_signal",
     "C16": "c16_resampling",
     "C17": "c17_threshold",
